@@ -24,6 +24,14 @@ CLAIMS = {
    technique="CrossHair (symbolic execution with z3; only 'Confirmed over all paths' counts) on the real modifier classes and match interval methods with contract stubs for records, adapters and kernels; symbolic lengths, cut positions, match coordinates, scores, flags",
    text="Bounded symbolic checking that every read-modifying class returns a contiguous slice of the record it received with the qualities in step: UnconditionalCutter, Shortener, NEndTrimmer, Quality/Nextseq/PolyA trimmers (kernel results arbitrary within their proved contracts), ZeroCapper, AdapterCutter for every action x match kind (single, linked, two rounds), ReverseComplementer / PairedReverseComplementer (slice of the reverse complement / of the mate's record when swapped) and PairedAdapterCutter for all six actions, each against intervals written from the statement.",
    note="Trusted: CrossHair's models; Rec stands in for dnaio.SequenceRecord (compared with the real class on 1500 concrete vectors each run); kernels return arbitrary values inside the contracts proved by C13/C14; adapters return arbitrary matches inside the C01 contract. Read texts are short fixed strings; coordinates/lengths are symbolic over all values. Linked adapter + crop is documented as unsupported and outside the claim."),
+ "C05": dict(engine="crosshair", design="3 C05",
+   technique="CrossHair on the real paired steps built by make_pipeline_from_args from natively parsed option sets, with recording writers; symbolic per-mate features (length class, N count, expected errors, CASAVA flag, matched flag, last adapter) and pair id",
+   text="Bounded symbolic checking, one paired command line per condition (111 option sets: pair-filter modes x length bounds LEN/LEN:/:LEN2/LEN:LEN2 x discard/redirect/interleaved; untrimmed filters with adapters on R1 only/R2 only/both; max-n/max-ee/max-aer/casava; demultiplexing): every writer call receives both mates of the same pair, the opened files are the documented set, and the keep/redirect/discard decision equals the documented combination (any/both/first, forced 'both' for one-sided adapters, one-sided bounds). PairedAdapterCutter (real _find_best_match_pair, stub adapters with symbolic score/errors): both mates trimmed by the maximal same-rank pair or neither changed.",
+   note="Trusted: CrossHair's models; recording output files; one pair per condition (the steps read no state a previous pair wrote: induction over the write sequence); modifiers are not run (their effect is the symbolic features); expected_errors stubbed by a symbolic value."),
+ "C15": dict(engine="crosshair", design="3 C15",
+   technique="CrossHair on the real Demultiplexer / PairedDemultiplexer / CombinatorialDemultiplexer built by make_pipeline_from_args, recording writers; symbolic match presence, first/last adapter index per mate, lengths, pair id",
+   text="Bounded symbolic checking, one demultiplexing command line per condition (32: single/paired/combinatorial x 1-3 names x none/--discard-untrimmed/--untrimmed-output x filters): the set of opened paths equals all names (x names2, plus the documented 'unknown' combinations or the untrimmed file), a read that passes the filters is written exactly once to the writer of the path obtained by substituting the LAST match's name (or unknown / untrimmed / nowhere), and - without an untrimmed option - the same command without {name} writes the same records to its main output iff one demultiplexed file got them.",
+   note="Trusted: CrossHair's models; recording output files; dummy match objects carrying real adapter objects; the uncounted drop of the combinatorial --discard-untrimmed case is C04's subject (routing only is checked here)."),
  "C06": dict(engine="crosshair", design="3 C06",
    technique="CrossHair on the real ParallelPipelineRunner.run loop, OrderedChunkWriter, WorkerProcess._send_outfiles, proxy writers and every statistics __iadd__, with the OS scheduler replaced by a nondeterministic stub whose choices (chunk->worker assignment, wait() results) are the symbolic inputs",
    text="Bounded, message-level model checking of the multi-core merge: for every assignment of <= 4 chunks to <= 3 workers and every sequence of connection.wait results the real main loop writes every output file's chunk payloads exactly once in index order with nothing left buffered, and the merged Statistics (counters, length histograms, per-adapter tables) equal those of the serial runner. No process is started.",
